@@ -21,6 +21,7 @@ RULE = ("Each case runs a real hio http Server (WSGI) or BareServer, plain or TL
         "Oracle in Doist tyme, from the fake kernel's own record of when bytes moved on the server-side socket: (safety) when "
         "the server closes a connection, the last traffic before that cycle is at least tymeout old; (bounded liveness) a "
         "non-persistent connection idle since tyme t is closed by t + tymeout + 2 tocks; service never raises. "
+        "In a fifth of the cases the server is wound to another clock (in step with the Doist at an offset of +64, +16 or -8) at a drawn cycle while it holds connections: every idle period starts afresh then. "
         "Non-trivial: >= 1 connection had >= 2 separate traffic events before falling idle and the run lasted beyond its idle "
         "deadline. Distinct: digest of config + client scripts.")
 COMPONENTS = dict(real=["hio.core.http.serving.Server/BareServer/ServerDoer/Requestant/Responder", "hio.core.tcp.serving.Server/ServerTls/Remoter/RemoterTls (tymer, refresh)",
